@@ -466,13 +466,16 @@ Proof.
     { apply vgood_move.
       match goal with |- vmove s (if _ then force_close ?s2 _ else _) => assert (L : vmove s s2) by (apply vmove_same, same_v_conns; rewrite conns_enq; reflexivity) end.
       destruct (a_loaded a); [eapply vmove_trans; [exact L|apply vmove_force_close]|exact L]. }
-    destruct (true && a_loaded a && negb (api_test (a_api a) k)) eqn:Eg; [exact I|]. cbn [andb] in Eg.
+    destruct (true && a_loaded a && cstate_eqb (k_st k) Disconnected) eqn:Eg; [exact I|]. cbn [andb] in Eg.
     apply vgood_move. destruct (a_loaded a && api_stores (a_api a)) eqn:El; [|apply vmove_same, same_v_conns; reflexivity].
-    apply andb_prop in El as [El Es]. rewrite El in Eg. cbn [andb] in Eg. apply negb_false_iff in Eg.
+    apply andb_prop in El as [El Es]. rewrite El in Eg. cbn [andb] in Eg. apply cs_eqb_false in Eg.
     match goal with |- vmove s (put ?s1 _ _) => apply (vmove_trans s s1); [apply vmove_same, same_v_conns; reflexivity|] end.
     apply (vmove_put _ (a_conn a) k _ LDisc Hg). intros Hv.
     assert (Hcl : k_closable k = true).
-    { unfold api_test in Eg. destruct (a_api a); try discriminate Es; try exact Eg. unfold k_closable. rewrite Eg. reflexivity. }
+    { (* a call in progress is on a connection that is not kConnecting, and the store does not overwrite kDisconnected *)
+      match goal with Hf : find_call u (s_calls s) = Some a |- _ => destruct (find_call_some _ _ _ Hf) as [Hin _] end.
+      destruct (proj2 (gi_calls s G) a Hin) as (k1 & Hk1 & _ & Hnc & _). rewrite Hg in Hk1. injection Hk1 as <-.
+      unfold k_closable. destruct (k_st k); try reflexivity; congruence. }
     apply (disc_step k Hcl Hv).
   - destruct (find_call u (s_calls s)) as [a|]; [|exact I]. destruct (negb (a_stored a)); [exact I|].
     destruct (getc s (a_conn a)) as [k|] eqn:Hg; [|exact I].
@@ -558,23 +561,24 @@ Definition creq_of (a : api) : option creq :=
 Lemma api_test_creq a r k : creq_of a = Some r -> api_test a k = creq_test r (k_st k).
 Proof. destruct a; cbn; intros H; try discriminate; injection H as <-; reflexivity. Qed.
 
-(* an XStore accepted in strict mode: the request's state test still passes - exactly Conn_Race.set_ok for
-   the corresponding XSet of the x-layer of Conn_Model *)
-Theorem S02_H3_is_set_ok : forall s u a k r s' obs,
-  find_call u (s_calls s) = Some a -> a_stored a = false -> getc s (a_conn a) = Some k -> creq_of (a_api a) = Some r ->
-  step true s (XStore u) = Ok (s', obs) ->
-  forall cm reqs tm, st cm = k_st k ->
-  Conn_Race.set_ok (mkX cm (mkReq u r (a_loaded a) false :: reqs) tm) (Conn_Model.XSet u).
+(* H3 and Conn_Race.set_ok.  In strict mode an XStore is refused exactly when its state test had passed and the store would
+   overwrite kDisconnected (the resurrection of F-19).  That is WEAKER than Conn_Race.set_ok for the corresponding XSet of the
+   x-layer of Conn_Model (set_ok: the request's state test still passes): set_ok implies that the step is accepted, and the only
+   accepted steps that are not set_ok are the benign ones of a shutdown() whose store finds kDisconnecting (a second foreign
+   shutdown(), or a forceClose() in between) *)
+Theorem S02_H3_exact : forall s u a k,
+  find_call u (s_calls s) = Some a -> a_stored a = false -> getc s (a_conn a) = Some k -> is_dtor (a_api a) = false ->
+  (step true s (XStore u) = Rejected <-> (a_loaded a = true /\ k_st k = Disconnected)) /\
+  (step true s (XStore u) <> Rejected -> step true s (XStore u) = step false s (XStore u)).
 Proof.
-  intros s u a k r s' obs Hf Hns Hg Hr H cm reqs tm Hst. unfold Conn_Race.set_ok. cbn [xreqs find_req rq_thread]. rewrite Nat.eqb_refl.
-  cbn [rq_passed rq_stored rq_kind xbase]. intros Hp _. rewrite Hst.
-  unfold step in H. rewrite Hf, Hns, Hg in H.
-  assert (Hd : is_dtor (a_api a) = false) by (destruct (a_api a); try reflexivity; discriminate Hr). rewrite Hd in H.
-  destruct (true && a_loaded a && negb (api_test (a_api a) k)) eqn:Eg; [discriminate|].
-  cbn [andb] in Eg. rewrite Hp in Eg. cbn [andb] in Eg. apply negb_false_iff in Eg. rewrite <- (api_test_creq _ r k Hr). exact Eg.
+  intros s u a k Hf Hns Hg Hd. unfold step. rewrite Hf, Hns, Hg, Hd. cbn [andb].
+  destruct (a_loaded a) eqn:El; cbn [andb].
+  - destruct (cstate_eqb (k_st k) Disconnected) eqn:Ed.
+    + apply cs_eqb_true in Ed. split; [split; [auto|reflexivity]|intros Hx; exfalso; apply Hx; reflexivity].
+    + apply cs_eqb_false in Ed. split; [|reflexivity]. split; [discriminate|intros [_ Hx]; congruence].
+  - split; [|reflexivity]. split; [discriminate|intros [Hx _]; discriminate].
 Qed.
 
-(* ... and conversely: in strict mode an XStore of such a request is refused only when set_ok fails *)
 Theorem S02_H3_only_set_ok : forall s u a k r cm reqs tm,
   find_call u (s_calls s) = Some a -> a_stored a = false -> getc s (a_conn a) = Some k -> creq_of (a_api a) = Some r ->
   st cm = k_st k -> Conn_Race.set_ok (mkX cm (mkReq u r (a_loaded a) false :: reqs) tm) (Conn_Model.XSet u) ->
@@ -585,7 +589,36 @@ Proof.
   destruct (a_loaded a) eqn:El; [|reflexivity].
   unfold Conn_Race.set_ok in H. cbn [xreqs find_req rq_thread] in H. rewrite Nat.eqb_refl in H.
   cbn [rq_passed rq_stored rq_kind xbase] in H. specialize (H eq_refl eq_refl). rewrite Hst, <- (api_test_creq _ r k Hr) in H.
-  rewrite H. reflexivity.
+  assert (Hn : cstate_eqb (k_st k) Disconnected = false).
+  { unfold api_test, k_closable in H. destruct (a_api a); try discriminate Hr; destruct (k_st k); try reflexivity; discriminate H. }
+  rewrite Hn. reflexivity.
+Qed.
+
+(* an accepted store that is not set_ok is the benign one: the state it overwrites is kDisconnecting already *)
+Theorem S02_H3_beyond_set_ok : forall s u a k r s' obs,
+  find_call u (s_calls s) = Some a -> a_stored a = false -> getc s (a_conn a) = Some k -> creq_of (a_api a) = Some r ->
+  k_st k <> Connecting -> step true s (XStore u) = Ok (s', obs) ->
+  forall cm reqs tm, st cm = k_st k ->
+  Conn_Race.set_ok (mkX cm (mkReq u r (a_loaded a) false :: reqs) tm) (Conn_Model.XSet u) \/
+  (a_loaded a = true /\ a_api a = AShutdown /\ k_st k = Disconnecting /\ forall c, getc s' c = getc s c).
+Proof.
+  intros s u a k r s' obs Hf Hns Hg Hr Hnc H cm reqs tm Hst.
+  assert (Hd : is_dtor (a_api a) = false) by (destruct (a_api a); try reflexivity; discriminate Hr).
+  unfold step in H. rewrite Hf, Hns, Hg, Hd in H. cbn [andb] in H.
+  destruct (a_loaded a) eqn:El; cbn [andb] in H.
+  - destruct (cstate_eqb (k_st k) Disconnected) eqn:Ed; [discriminate|]. apply cs_eqb_false in Ed.
+    destruct (api_test (a_api a) k) eqn:Et.
+    + left. unfold Conn_Race.set_ok. cbn [xreqs find_req rq_thread]. rewrite Nat.eqb_refl. cbn [rq_passed rq_stored rq_kind xbase].
+      intros _ _. rewrite Hst, <- (api_test_creq _ r k Hr). exact Et.
+    + right. unfold api_test, k_closable in Et.
+      assert (Ek : a_api a = AShutdown /\ k_st k = Disconnecting).
+      { destruct (a_api a); try discriminate Hr; destruct (k_st k); try discriminate Et; try congruence; auto. }
+      destruct Ek as [Ea Ek]. repeat (split; [assumption || reflexivity|]). rewrite Ea in H. cbn [api_stores andb ret] in H. injection H as <- _.
+      intros c. unfold getc, put, set_calls, set_conns. cbn [s_conns]. destruct (Nat.eq_dec (a_conn a) c) as [<-|Hn].
+      * fold (getc s (a_conn a)). rewrite Hg. rewrite nth_upd_eq by (eapply getc_lt, Hg). f_equal.
+        destruct k; cbn in *. subst. reflexivity.
+      * apply nth_upd_neq, Hn.
+  - left. unfold Conn_Race.set_ok. cbn [xreqs find_req rq_thread]. rewrite Nat.eqb_refl. cbn [rq_passed]. intros Hx. discriminate Hx.
 Qed.
 
 (* ---- whole runs ------------------------------------------------------------------------------------- *)
